@@ -55,7 +55,8 @@ let read_pin t : vinput =
 let out_str = function
   | VOk true -> "true" | VOk false -> "false" | VErr -> "err" | VPanic _ -> "panic"
 
-let cmd_vsig t =
+(* evaluates one vsig case from the token stream: (ValidateInputSignatures, ValidateAllSignatures) *)
+let eval_vsig t : string * string =
   let ver = if next_int t = 0 then VsV0 else VsV2 in
   let idx = next_int t in
   let tx = vs_read_tx t in
@@ -90,7 +91,18 @@ let cmd_vsig t =
   let p = { svp_tx = tx; svp_ins = ins } in
   let r = vs_validate_input digest parse_pk der_ok verify hash160 ver p (nat_of_int idx) in
   let a = vs_validate_all digest parse_pk der_ok verify hash160 ver p in
-  Printf.printf "res=%s all=%s\n" (out_str r) (out_str a)
+  (out_str r, out_str a)
+
+let cmd_vsig t =
+  let (r, a) = eval_vsig t in
+  Printf.printf "res=%s all=%s\n" r a
+
+(* family vhist: validate(A), then the same object with the fields of B: the model is a pure
+   function of the packet, so the two steps are validate(A) and validate(B) *)
+let cmd_vhist t =
+  let (r1, a1) = eval_vsig t in
+  let (r, a) = eval_vsig t in
+  Printf.printf "res1=%s all1=%s res=%s all=%s\n" r1 a1 r a
 
 let cmd_disasm t =
   let s = next_hex t in
@@ -98,4 +110,4 @@ let cmd_disasm t =
   | Some a -> Printf.printf "asm=%s\n" (hex_of_bytes a)
   | None -> Printf.printf "asm=err\n"
 
-let () = register "vsig" cmd_vsig; register "disasm" cmd_disasm
+let () = register "vsig" cmd_vsig; register "vhist" cmd_vhist; register "disasm" cmd_disasm
